@@ -148,6 +148,25 @@ def run(chk):
                 chk.violation("valid-shape-became-error", dict(desc, error=st, message=msg[:200]))
             continue
         compare2d(chk, a, b, R, s, t, desc, rng)
+        if cls is S.ConvexPolygon:
+            # the rounded class is built on the same core: given the same vertices (in any cyclic labelling) and the same explicit normal -
+            # of either sense - the core of the spheropolygon is the polygon the plain class builds (normal, vertex order, signed area)
+            for sense in (1.0, -1.0):
+                nb = sense * (R @ np.array(a.normal, float))
+                stp, plain = C.excname(S.ConvexPolygon, W, nb)
+                str_, rounded = C.excname(S.ConvexSpheropolygon, W, 0.25 * s, nb)
+                if stp != "ok" or str_ != "ok":
+                    if stp != str_:
+                        chk.violation("not-covariant:spheropolygon-core", dict(desc, requested_normal=nb.tolist(), outcomes=[stp, str_]))
+                    continue
+                core = rounded.polygon
+                if (not np.allclose(core.normal, plain.normal, atol=1e-12) or not np.allclose(core.vertices, plain.vertices, rtol=0, atol=1e-12 * (1 + float(np.max(np.abs(W)))))
+                        or not np.isclose(core.signed_area, plain.signed_area, rtol=1e-12)):
+                    chk.violation("not-covariant:spheropolygon-core", dict(desc, requested_normal=nb.tolist(), core_normal=np.asarray(core.normal).tolist(),
+                                                                           plain_normal=np.asarray(plain.normal).tolist(),
+                                                                           what="ConvexSpheropolygon(vertices, r, normal).polygon differs from ConvexPolygon(vertices, normal)"))
+                    break
+                chk.count("spheropolygon-core-vs-plain")
 
 
 def excmsg(fn, *a):
